@@ -21,6 +21,8 @@
                   id - 1 (the harness looks the bytes up in the source: position p itself first, then any other block;
                   id = -1: bytes that are no block of the source);  raw_blocks / conv_blocks = file size / block size
                   (-1 when the size is not a multiple of the block size)
+     srcnz        (wide_* filesystems) the blocks of the SOURCE that are not all zero, ascending: [b, c] = block and its class
+                  according to the independent reader;  hole = length in blocks of the hole the catalogue asks for (0: none)
    Model assumption (checked by the harness before a line is written): the refcount table takes one cluster.          *)
 EXTENDS E2image, Json, IOUtils
 Tr == ndJsonDeserialize(IOEnv.TRACE)[1]
@@ -76,9 +78,18 @@ LayoutMatches ==
                 /\ FileSize(q.file) = Tr.file_clusters
 RawMatches  == Pairs(raw) = ObsPairs(Tr.raw) /\ Tr.raw_blocks = NB
 ConvMatches == phase = "done" => Pairs(conv) = ObsPairs(Tr.conv) /\ Tr.conv_blocks = NB
-\* the universe realises the boundary catalogue: every target block of the integer-width boundaries is mapped (only listed
-\* in the cfg of the wide_* filesystems; a failure means the generator did not build what the catalogue asks for)
-Covers == WidthTargets(CBits) \subseteq NZ /\ NB > 2 ^ (32 - CBits)
+\* the universe realises the boundary catalogue (only listed in the cfg of the wide_* filesystems; a failure means the generator
+\* did not build what the catalogue asks for: the check is broken, nothing is said about e2image).  Both speak about the SOURCE:
+\* every target block of the integer-width boundaries is non-zero metadata ...
+Covers == /\ NB > 2 ^ (32 - CBits)
+          /\ \A t \in WidthTargets(CBits) \cap {Tr.targets[k] : k \in 1 .. Len(Tr.targets)} :
+                \E k \in 1 .. Len(Tr.srcnz) : Tr.srcnz[k].b = t /\ Tr.srcnz[k].c \in MetaLive
+          /\ Len(Tr.targets) > 0 /\ \A k \in 1 .. Len(Tr.targets) : Tr.targets[k] \in WidthTargets(CBits)
+\* ... and two consecutive blocks a metadata image must hold are at least Tr.hole blocks apart
+ImgIdx == {k \in 1 .. Len(Tr.srcnz) : Marks(Tr.srcnz[k].c, FALSE)}
+CoversHole == Tr.hole > 0 => /\ Tr.hole >= HoleMin(CBits)
+                             /\ \E i, j \in ImgIdx : /\ i < j /\ ~\E m \in ImgIdx : i < m /\ m < j
+                                                     /\ Tr.srcnz[j].b - Tr.srcnz[i].b - 1 >= Tr.hole
 \* the run must reach the end (a shorter run means the model got stuck: check broken, not a violation)
 LayoutDone == TLCGet("stats").diameter = NMap + 4
 =============================================================================
